@@ -332,6 +332,68 @@ def run_case(case):
         after = fmt_map(mm)
         if before != after:
             out["fails"].append(("C19", f"{kind} {descr}: elaboration changed the memory map", "map-changed"))
+        if lib.rng_for(case["seed"], case["idx"], 1929).random() < 0.3:
+            # two instances with the same parameters in one design (two identical peripherals): they share nothing
+            try:
+                c2, extra2, _, _ = make(kind, lib.rng_for(case["seed"], case["idx"], 1919))
+                m2 = Module()
+                m2.submodules.a = c
+                m2.submodules.b = c2
+                for i_, e_ in enumerate(list(extra) + list(extra2)):
+                    m2.submodules[f"x{i_}"] = e_
+                rtlil.convert(m2, ports=flat_ports(c) + flat_ports(c2))
+                out["twin_instances"] = True
+            except Timeout:
+                raise
+            except BaseException as e:
+                where = traceback.extract_tb(e.__traceback__)[-1]
+                out["fails"].append(("C19", f"{kind} {descr}: a design with TWO instances built from the same parameters cannot be elaborated: "
+                                            f"{type(e).__name__} at {os.path.basename(where.filename)}:{where.name}: {str(e)[:100]}",
+                                     f"twin:{type(e).__name__}"))
+        if kind == "Multiplexer" and mm is not None:
+            # csr.Multiplexer does not freeze its map: a register may be added after the multiplexer has been
+            # elaborated; the next elaboration either includes it or is refused descriptively — never an internal error
+            try:
+                late = El(1, "rw")
+                late_at = mm.add_resource(late, name=("verif_late",), size=1)[0]
+                added = True
+            except (ValueError, TypeError):
+                added = False
+            if added:
+                out["late_register"] = True
+                try:
+                    convert(c, list(extra) + [late])
+                    # it elaborated: then the register is served like any other (a write to its address strobes it)
+                    from amaranth.sim import Simulator
+                    m2 = Module()
+                    m2.submodules.dut = c
+                    for i_, e_ in enumerate(list(extra) + [late]):
+                        m2.submodules[f"x{i_}"] = e_
+                    d_ = Signal(name="verif_dummy"); m2.d.sync += d_.eq(~d_)
+                    sim = Simulator(m2)
+                    sim.add_clock(1e-6)
+                    seen = []
+
+                    async def tb(ctx):
+                        ctx.set(c.bus.addr, late_at); ctx.set(c.bus.w_stb, 1); ctx.set(c.bus.w_data, 1)
+                        await ctx.tick()
+                        ctx.set(c.bus.w_stb, 0)
+                        seen.append(ctx.get(late.element.w_stb))
+                        await ctx.tick()
+                    sim.add_testbench(tb)
+                    sim.run()
+                    if seen != [1]:
+                        out["fails"].append(("C19", f"{kind} {descr}: a register added to the map after the first elaborations is accepted by the "
+                                                    f"next elaboration but not served by it (a bus write to its address {late_at} does not strobe it): "
+                                                    f"the elaboration silently works from a stale register set", "late-register:not-served"))
+                except Timeout:
+                    raise
+                except BaseException as e:
+                    if not descriptive(e, own_only=True):
+                        where = traceback.extract_tb(e.__traceback__)[-1]
+                        out["fails"].append(("C19", f"{kind} {descr}: a register added to the (unfrozen) map after the first elaborations makes "
+                                                    f"the next elaboration fail with {type(e).__name__} at {os.path.basename(where.filename)}:{where.name}: "
+                                                    f"{str(e)[:80]}", f"late-register:{type(e).__name__}"))
         if kind == "Bridge":
             # whatever scheme gives colliding registers their submodule names: a further register that is CALLED
             # like one of the names the scheme produced is legal too, and the bridge must still elaborate
